@@ -47,13 +47,18 @@ CONSTANTS Jobs,       \* the case spaces explored by this run: a set of Job(...)
 \*            "free": bases among the *other* classes, duplicates allowed (cycles, forward references)
 \*            "self": bases among all classes (a class may also name itself)
 \*   mem      member names that may be declared in class bodies (every placement is explored)
-\*   layouts  subset of {"one", "from", "as", "attr", "chain", "chain2"} (every split point is explored)
+\*   layouts  subset of {"one", "from", "as", "attr", "chain", "chain2", "sub", "nest"} (every split point is explored)
+\*   dodel    TRUE: after the members are known, one `del cls[name]` is applied (every class x name) and the
+\*            inherited members are computed again
 Job(name, n, maxb, domain, mem, layouts) ==
-  [name |-> name, n |-> n, maxb |-> maxb, domain |-> domain, mem |-> mem, layouts |-> layouts]
+  [name |-> name, n |-> n, maxb |-> maxb, domain |-> domain, mem |-> mem, layouts |-> layouts, dodel |-> FALSE]
+DelJob(name, n, maxb, domain, mem, layouts) == [Job(name, n, maxb, domain, mem, layouts) EXCEPT !.dodel = TRUE]
 One == {"one"}
-Split == {"from", "as", "attr", "chain", "chain2"}
+Split == {"from", "as", "attr", "chain", "chain2"}     \* two modules, the bases of one reached through imports
+Spell == {"sub", "nest"}                               \* one module: subscripted bases `Cb[int]`; classes 1..cut nested
+                                                       \* in a holder class H and named `H.Cb` from outside
 QuickJobs ==
-  { Job("dag5", 5, 2, "dag", {}, One),              \* 1 700 hierarchies (<= 2 bases), orders only
+  { Job("dag5", 5, 3, "dag", {}, One),              \* 6 560 hierarchies (every 5-class dag with <= 3 bases), orders only
     Job("dag4", 4, 3, "dag", {"m1"}, One),          \* 160 hierarchies x 16 placements
     Job("dag3", 3, 3, "dag", {"m1", "m2"}, One),    \* 10 x 64
     Job("free3", 3, 3, "free", {}, One),            \* 3 375 hierarchies (cycles, forward references, duplicates)
@@ -61,7 +66,10 @@ QuickJobs ==
     Job("self2", 2, 3, "self", {"m1"}, One),        \* 225 x 4
     Job("split4", 4, 3, "dag", {}, Split),          \* 160 x 5 layouts x 3 split points
     Job("split3", 3, 3, "dag", {"m1"}, Split),      \* 10 x 10 x 8
-    Job("splitfree3", 3, 2, "free", {}, Split) }    \* 343 x 10
+    Job("splitfree3", 3, 2, "free", {}, Split),     \* 343 x 10
+    Job("spell4", 4, 3, "dag", {}, Spell),          \* 160 x (1 + 3)
+    Job("spell3", 3, 3, "dag", {"m1"}, Spell),      \* 10 x (1 + 2) x 8
+    DelJob("del3", 3, 3, "dag", {"m1", "m2"}, One) }\* 10 x 64 x 6 deletions
 \* thorough: one TLC run per job (the driver replays a job while TLC explores the next one)
 T_dag5 == { Job("dag5", 5, 3, "dag", {"m1"}, One) }                  \* 6 560 hierarchies x 32 placements
 T_dag4 == { Job("dag4", 4, 3, "dag", {"m1", "m2"}, One) }            \* 160 x 256
@@ -70,9 +78,12 @@ T_free4 == { Job("free4", 4, 2, "free", {}, One) }                   \* 28 561
 T_self3 == { Job("self3", 3, 2, "self", {"m1"}, One) }               \* 2 197 x 8
 T_split4 == { Job("split4", 4, 3, "dag", {"m1"}, Split) }            \* 2 400 x 16
 T_splitfree3 == { Job("splitfree3", 3, 2, "free", {"m1"}, Split) }   \* 3 430 x 8
-ThoroughJobs == T_dag5 \cup T_dag4 \cup T_free3 \cup T_free4 \cup T_self3 \cup T_split4 \cup T_splitfree3
+T_spell4 == { Job("spell4", 4, 3, "dag", {"m1"}, Spell) }            \* 160 x 4 x 16
+T_del4 == { DelJob("del4", 4, 3, "dag", {"m1"}, One) }               \* 160 x 16 x 4 deletions
+ThoroughJobs == T_dag5 \cup T_dag4 \cup T_free3 \cup T_free4 \cup T_self3 \cup T_split4 \cup T_splitfree3 \cup T_spell4 \cup T_del4
 SimJobs == { Job("sim6", 6, 3, "dag", {"m1"}, One) }   \* 564 160 hierarchies: sampled with -simulate
-TinyJobs == { Job("dag3", 3, 3, "dag", {"m1"}, One), Job("free2", 2, 2, "free", {"m1"}, Split) }
+TinyJobs == { Job("dag3", 3, 3, "dag", {"m1"}, One), Job("free2", 2, 2, "free", {"m1"}, Split),
+              Job("spell3", 3, 3, "dag", {"m1"}, Spell), DelJob("del2", 2, 3, "dag", {"m1"}, One) }
 
 VARIABLE job          \* the job this behaviour belongs to (chosen by Init, never changes)
 N == job.n
@@ -94,11 +105,12 @@ VARIABLES bases, layout, cut,                    \* the case
           pc, steps, fired,                      \* control; observation: steps taken, actions taken
           root, stack, exc, mro,                 \* Class.mro machine; mro[c] = result of C<c>.mro()
           refmro, refext, refcyc,                \* reference, stored once (TLC does not memoise operators)
-          ic, folding, rev, inh, allm, refattr   \* inherited_members / all_members machine
+          ic, folding, rev, inh, allm, refattr,  \* inherited_members / all_members machine
+          delop                                  \* the `del cls[name]` applied (jobs with dodel), else NoDel
 casevars == <<job, bases, layout, cut>>
 mrovars == <<root, stack, exc, mro>>
 refvars == <<refmro, refext, refcyc>>
-memvars == <<has, ic, folding, rev, inh, allm, refattr>>
+memvars == <<has, ic, folding, rev, inh, allm, refattr, delop>>
 vars == <<casevars, pc, steps, fired, mrovars, refvars, memvars>>
 
 \* ---- case space ------------------------------------------------------------------------------------
@@ -110,12 +122,16 @@ RECURSIVE Hier(_)
 Hier(k) == IF k = 0 THEN {<<>>} ELSE {Append(h, b) : h \in Hier(k - 1), b \in BaseLists(k)}
 
 \* ---- module layout: where classes live and how a base expression reaches its class ------------------
-\* classes 1..cut live in module mb, the others in ma; "one": everything in ma.
-ModOf(c) == IF layout = "one" \/ c > cut THEN "ma" ELSE "mb"
+\* classes 1..cut live in module mb, the others in ma; "one" / "sub": everything in ma; "nest": classes
+\* 1..cut are members of the holder class ma.H (their path is ma.H.Cc), the others are in ma.
+ModOf(c) == IF layout \in {"one", "sub"} \/ c > cut THEN "ma" ELSE IF layout = "nest" THEN "ma.H" ELSE "mb"
 \* Expr.canonical_path of the base expression naming class b inside the class statement of c.  A name
 \* imported with `from mb import Cb [as Kb]` or written `mb.Cb` is resolved by the expression itself;
 \* with "chain" the name is imported from mc, which only re-exports it (`from mb import Cb`): the path
 \* denotes an Alias; with "chain2" it is imported from md, which re-exports mc's re-export (two hops).
+\* "sub": the base is written `Cb[int]` (ExprSubscript: the canonical path of the subscripted value);
+\* "nest": a module-level class names a nested base `H.Cb` (ExprAttribute chain), a nested class names its
+\* nested base `Cb` (resolved in the scope of H): both give ma.H.Cb.
 BasePath(c, b) == IF ModOf(b) = ModOf(c) THEN <<ModOf(c), b>>
                   ELSE CASE layout = "chain" -> <<"mc", b>>
                          [] layout = "chain2" -> <<"md", b>>
@@ -131,7 +147,7 @@ FinalTarget(o) == IF o.kind = "alias" THEN FinalTarget(Member(o.at)) ELSE o
 ResolvedBases(c) == [i \in 1..Len(bases[c]) |-> FinalTarget(Member(BasePath(c, bases[c][i]))).at[2]]
 \* names under which class b is visible as an import alias in the *other* module (Alias views of a class)
 AliasViews(b) ==
-  IF layout \in {"one", "attr"} THEN {}
+  IF layout \in {"one", "attr", "sub", "nest"} THEN {}
   ELSE {<<ModOf(c), b>> : c \in {x \in Classes : ModOf(x) # ModOf(b) /\ b \in Range(bases[x])}}
 
 \* ---- reference: the C3 rule of the language reference -----------------------------------------------
@@ -182,6 +198,7 @@ PyGetattr(c, m) == IF refmro[c].ok THEN FirstDeclaring(refmro[c].order, m) ELSE 
 \* ---- the machine -----------------------------------------------------------------------------------
 Pending == [ok |-> FALSE, order |-> <<>>, why |-> "pending"]
 NoAlias == [owner |-> NoClass, parent |-> NoClass, inherited |-> FALSE]
+NoDel == [cls |-> NoClass, name |-> "", had |-> FALSE, out |-> "none"]
 Frame(c, seen) == [cls |-> c, seen |-> seen, bs |-> <<>>, phase |-> "enter", i |-> 1,
                    lins |-> <<>>, lists |-> <<>>, result |-> <<>>]
 
@@ -189,7 +206,7 @@ Init ==
   /\ job \in Jobs
   /\ bases \in Hier(N)
   /\ layout \in Layouts
-  /\ cut \in (IF layout = "one" THEN {0} ELSE 1..(N - 1))
+  /\ cut \in (IF layout \in {"one", "sub"} THEN {0} ELSE 1..(N - 1))
   /\ has = [c \in Classes |-> {}]
   /\ pc = "ref" /\ steps = 0 /\ fired = {}
   /\ root = 1 /\ stack = <<>> /\ exc = "none" /\ mro = [c \in Classes |-> Pending]
@@ -198,6 +215,7 @@ Init ==
   /\ inh = [c \in Classes |-> [m \in Mem |-> NoAlias]]
   /\ allm = [c \in Classes |-> [m \in Mem |-> NoClass]]
   /\ refattr = [c \in Classes |-> [m \in Mem |-> NoClass]]
+  /\ delop = NoDel
 
 Tick(a) == steps' = steps + 1 /\ fired' = fired \cup {a}
 
@@ -311,7 +329,7 @@ PlaceMembers ==
   /\ pc = "place" /\ Tick("PlaceMembers")
   /\ has' \in [Classes -> SUBSET Mem]
   /\ pc' = "inh"
-  /\ UNCHANGED <<casevars, mrovars, refvars, ic, folding, rev, inh, allm, refattr>>
+  /\ UNCHANGED <<casevars, mrovars, refvars, ic, folding, rev, inh, allm, refattr, delop>>
 
 \* Object.inherited_members of class ic:
 \*   try: mro = self.mro()  except ValueError: return {}          inherited_members = {}
@@ -320,7 +338,7 @@ InheritedStart ==
   /\ IF mro[ic].ok
      THEN /\ folding' = TRUE /\ rev' = Rev(mro[ic].order) /\ ic' = ic       \* reversed(mro)
      ELSE /\ folding' = FALSE /\ rev' = <<>> /\ ic' = ic + 1
-  /\ UNCHANGED <<casevars, pc, mrovars, refvars, has, inh, allm, refattr>>
+  /\ UNCHANGED <<casevars, pc, mrovars, refvars, has, inh, allm, refattr, delop>>
 \*   for base in reversed(mro): for name, member in base.members.items():
 \*       if name not in self.members: inherited_members[name] = Alias(name, member, parent=self, inherited=True)
 InheritedFold ==
@@ -330,23 +348,38 @@ InheritedFold ==
                 IF m \in has[base] /\ m \notin has[ic]
                 THEN [owner |-> base, parent |-> ic, inherited |-> TRUE] ELSE inh[ic][m]]]
   /\ rev' = Tail(rev)
-  /\ UNCHANGED <<casevars, pc, mrovars, refvars, has, ic, folding, allm, refattr>>
+  /\ UNCHANGED <<casevars, pc, mrovars, refvars, has, ic, folding, allm, refattr, delop>>
 InheritedReturn ==
   /\ pc = "inh" /\ folding /\ rev = <<>> /\ Tick("InheritedReturn")
   /\ folding' = FALSE /\ ic' = ic + 1
-  /\ UNCHANGED <<casevars, pc, mrovars, refvars, has, rev, inh, allm, refattr>>
+  /\ UNCHANGED <<casevars, pc, mrovars, refvars, has, rev, inh, allm, refattr, delop>>
 \* all_members = {**self.inherited_members, **self.members};  __getitem__(name) = all_members[name]
 AllMembers ==
   /\ pc = "inh" /\ ic = N + 1 /\ Tick("AllMembers")
   /\ allm' = [c \in Classes |-> [m \in Mem |-> IF m \in has[c] THEN c ELSE inh[c][m].owner]]
   /\ refattr' = [c \in Classes |-> [m \in Mem |-> PyGetattr(c, m)]]
   /\ pc' = "done"
-  /\ UNCHANGED <<casevars, mrovars, refvars, has, ic, folding, rev, inh>>
+  /\ UNCHANGED <<casevars, mrovars, refvars, has, ic, folding, rev, inh, delop>>
+
+\* DelMembersMixin.__delitem__ (one-part key):
+\*     try: del self.members[name]  except KeyError: del self.inherited_members[name]
+\* inherited_members builds a fresh dictionary on every access: deleting an inherited name from it has no
+\* effect ("noop"), a name that is neither declared nor inherited raises KeyError.  Afterwards the consumer
+\* reads inherited_members / all_members again: the machine is run once more on the new placement.
+DelItem ==
+  /\ pc = "done" /\ job.dodel /\ delop = NoDel /\ Tick("DelItem")
+  /\ \E c \in Classes, m \in Mem :
+        /\ delop' = [cls |-> c, name |-> m, had |-> m \in has[c],
+                     out |-> IF m \in has[c] THEN "deleted" ELSE IF inh[c][m].owner # NoClass THEN "noop" ELSE "KeyError"]
+        /\ has' = [has EXCEPT ![c] = @ \ {m}]
+  /\ pc' = "inh" /\ ic' = 1 /\ folding' = FALSE /\ rev' = <<>>
+  /\ inh' = [c \in Classes |-> [m \in Mem |-> NoAlias]]
+  /\ UNCHANGED <<casevars, mrovars, refvars, allm, refattr>>
 
 Next == \/ Reference \/ Extension
         \/ CallMro \/ MroEnter \/ MroCycleCheck \/ MroRecurse \/ MergeStart
         \/ MergeExhausted \/ MergePick \/ MergeFail \/ Unwind \/ MroFailed \/ MroAllDone
-        \/ PlaceMembers \/ InheritedStart \/ InheritedFold \/ InheritedReturn \/ AllMembers
+        \/ PlaceMembers \/ InheritedStart \/ InheritedFold \/ InheritedReturn \/ AllMembers \/ DelItem
 Spec == Init /\ [][Next]_vars
 
 \* ---- properties ------------------------------------------------------------------------------------
@@ -384,16 +417,22 @@ NeverShadowsDeclared == Done => \A c \in Classes : \A m \in Mem : inh[c][m].owne
 InheritedAliasShape == Done => \A c \in Classes : \A m \in Mem : inh[c][m].owner # NoClass =>
                           /\ inh[c][m].parent = c /\ inh[c][m].inherited       \* path = path(c).m
                           /\ inh[c][m].owner \in Range(mro[c].order) /\ m \in has[inh[c][m].owner]
+\* CPython's `del C.m` removes m only from C's own namespace (AttributeError otherwise): whatever del cls[m] did,
+\* no other class lost a member, only a declared member disappears, and (the invariants above, evaluated again
+\* on the new placement) the inherited members are once more what getattr finds - a deleted own definition
+\* uncovers the next one of the MRO.
+DelTouchesOnlyOwnMember == (Done /\ delop # NoDel) => (delop.out = "deleted") = delop.had
+DelFinished == job.dodel \/ delop = NoDel
 NothingWhenUncomputable == Done => \A c \in Classes : ~mro[c].ok => \A m \in Mem : inh[c][m] = NoAlias
 
 AllActions == {"Reference", "Extension", "CallMro", "MroEnter", "MroCycleCheck", "MroRecurse", "MergeStart", "MergeExhausted",
                "MergePick", "MergeFail", "Unwind", "MroFailed", "MroAllDone", "PlaceMembers", "InheritedStart", "InheritedFold",
-               "InheritedReturn", "AllMembers"}
+               "InheritedReturn", "AllMembers", "DelItem"}
 EmitCase ==
-  (Emit /\ Done) =>
+  (Emit /\ Done /\ (job.dodel => delop # NoDel)) =>
      PrintT(<<"CASE", ToJson([job |-> job.name, n |-> N, domain |-> Domain, bases |-> bases, layout |-> layout, cut |-> cut,
                               mods |-> [c \in Classes |-> ModOf(c)],
                               views |-> [c \in Classes |-> AliasViews(c)],
                               has |-> has, mro |-> mro, ref |-> refmro, cyc |-> refcyc,
-                              inh |-> inh, attr |-> refattr, unfired |-> AllActions \ fired])>>)
+                              inh |-> inh, attr |-> refattr, delop |-> delop, unfired |-> AllActions \ fired])>>)
 =============================================================================
